@@ -18,7 +18,7 @@ const DICT: [&str; 96] = [
     "{", "}", "(", ")", "[", "]", "[[", "]]", ",", ";", ":", ".", "..", "...", "|", "^", "<", "@", "&", "!", "--", "/*", "*/", "\"", "'", "'0101'B",
 ];
 
-pub const EXOTIC: [&str; 62] = [
+pub const EXOTIC: [&str; 79] = [
     "MY-CLASS ::= CLASS { &id INTEGER UNIQUE, &Type, &val INTEGER OPTIONAL } WITH SYNTAX { ID &id TYPE &Type [VAL &val] }",
     "obj1 MY-CLASS ::= { ID 1 TYPE INTEGER }",
     "obj2 MY-CLASS ::= { ID 2 TYPE BOOLEAN VAL 7 }",
@@ -81,6 +81,23 @@ pub const EXOTIC: [&str; 62] = [
     "oid1 OBJECT IDENTIFIER ::= { iso standard 8571 }",
     "oid2 OBJECT IDENTIFIER ::= { oid1 modules(1) 99999999999 }",
     "Any1 ::= SEQUENCE { t INTEGER, v ANY DEFINED BY t }",
+    "E-Ovf ::= ENUMERATED { a, ..., b(170141183460469231731687303715884105727), c }",
+    "E-Ovf2 ::= ENUMERATED { a(170141183460469231731687303715884105727), b }",
+    "ZSet MY-CLASS ::= { ASet, ... }",
+    "ASet MY-CLASS ::= { BSet, ... }",
+    "BSet MY-CLASS ::= { ASet, ... }",
+    "cyc-oz MY-CLASS ::= { cyc-oa }",
+    "cyc-oa MY-CLASS ::= { cyc-ob }",
+    "cyc-ob MY-CLASS ::= { cyc-oa }",
+    "PatInt ::= IA5String ((PATTERN \"a\") INTERSECTION (IA5String (SIZE (1..2))))",
+    "PatUn ::= IA5String (PATTERN \"a\" | SIZE (1..2))",
+    "InstObj ::= Param { { &id 1 }, 5 }",
+    "InstMany ::= Param { BOOLEAN, 5, NULL }",
+    "InstFew ::= Param { BOOLEAN }",
+    "InstNone ::= Param { }",
+    "RealBig ::= SEQUENCE { r REAL DEFAULT 10000000000000000000000000000000000000000000000000000000000000000000000000000000000000000000000000000000000000000000000000000000000000000000000000000000000000000000000000000000000000000000000000000000000000000000000000000000000000000000000000000000000000000000000000000000000000000000000000000000000000000000000000000000000000000000000000000000000000000000000000000000000000000000000000000000000000000 }",
+    "rbig REAL ::= 10000000000000000000000000000000000000000000000000000000000000000000000000000000000000000000000000000000000000000000000000000000000000000000000000000000000000000000000000000000000000000000000000000000000000000000000000000000000000000000000000000000000000000000000000000000000000000000000000000000000000000000000000000000000000000000000000000000000000000000000000000000000000000000000000000000000000000.5",
+    "RealExp ::= SEQUENCE { r REAL DEFAULT 1.0E99999 }",
 ];
 
 fn header(src: &mut Src, name: &str) -> String {
